@@ -97,6 +97,14 @@ pub struct GraphTask {
     pub class: usize,
     #[serde(default)]
     pub prio: i32,
+    /// own time limit in virtual hours (0 = the submit's)
+    #[serde(default)]
+    pub tl: u32,
+    /// padding of the task body in MiB with filler byte `pad_fill` (large bodies make the server split its messages)
+    #[serde(default)]
+    pub pad_mb: u32,
+    #[serde(default)]
+    pub pad_fill: u8,
 }
 
 #[derive(Clone, Debug, Serialize, Deserialize)]
@@ -448,9 +456,18 @@ fn program() -> ProgramDefinition {
 }
 
 fn task_desc(prio: i32, crash_limit: i32, time_limit: u32) -> TaskDescription {
+    task_desc_padded(prio, crash_limit, time_limit, 0, 0)
+}
+
+fn task_desc_padded(prio: i32, crash_limit: i32, time_limit: u32, pad_mb: u32, fill: u8) -> TaskDescription {
+    let mut program = program();
+    if pad_mb > 0 {
+        let pad = vec![b'a' + (fill % 26); pad_mb as usize * 1024 * 1024];
+        program.args.push(pad.into());
+    }
     TaskDescription {
         kind: TaskKind::ExternalProgram(TaskKindProgram {
-            program: program(),
+            program,
             pin_mode: PinMode::None,
             task_dir: false,
         }),
@@ -1115,7 +1132,7 @@ impl Cluster {
                     TaskWithDependencies {
                         id: JobTaskId::new(g.id),
                         resource_rq_id: LocalResourceRqId::new(idx as u32),
-                        task_desc: task_desc(g.prio, spec.crash_limit, spec.time_limit),
+                        task_desc: task_desc_padded(g.prio, spec.crash_limit, if g.tl > 0 { g.tl } else { spec.time_limit }, g.pad_mb, g.pad_fill),
                         task_deps: g.deps.iter().map(|d| JobTaskId::new(*d)).collect(),
                     }
                 })
@@ -1123,7 +1140,7 @@ impl Cluster {
             let tj: Vec<Value> = spec
                 .graph
                 .iter()
-                .map(|g| json!({"id": g.id, "deps": g.deps, "class": g.class, "prio": g.prio}))
+                .map(|g| json!({"id": g.id, "deps": g.deps, "class": g.class, "prio": g.prio, "tl": if g.tl > 0 { g.tl } else { spec.time_limit }}))
                 .collect();
             (
                 JobTaskDescription::Graph {
